@@ -16,6 +16,7 @@ import BigDec.Driver.C13
 import BigDec.Driver.C14
 import BigDec.Driver.C15
 import BigDec.Driver.C19
+import BigDec.Driver.C20
 import BigDec.Driver.C18
 /-! Line-protocol driver: one case per input line
       `<prop> \t <op> \t <arg>… \t => \t <implementation output>`
@@ -42,6 +43,7 @@ def dispatch (prop op : String) (args : List String) (impl : String) : Verdict :
   | "C14" => Driver.C14.handle op args impl
   | "C15" => Driver.C15.handle op args impl
   | "C19" => Driver.C19.handle op args impl
+  | "C20" => Driver.C20.handle op args impl
   | "C18" => Driver.C18.handle op args impl
   | _ => badInput ("unknown property " ++ prop)
 
